@@ -58,6 +58,12 @@ def build_world(pkg):
     r = run([GO, "mod", "edit", "-modfile=" + mod, "-require=github.com/anishathalye/porcupine@v1.3.0"], cwd=REPO)
     if r.returncode != 0:
         harness_error("go mod edit failed:\n" + r.stdout)
+    drf = os.path.join(BUILD, "dep_replaces.json")
+    if os.path.exists(drf):
+        for m, d in json.load(open(drf)).items():
+            r = run([GO, "mod", "edit", "-modfile=" + mod, "-replace=%s=%s" % (m, d)], cwd=REPO)
+            if r.returncode != 0:
+                harness_error("go mod edit -replace failed:\n" + r.stdout)
     extra = os.path.join(VERIF, "runner/extra.sum")
     if os.path.exists(extra):
         with open(os.path.join(BUILD, "go.sum"), "a") as f:
